@@ -1,0 +1,36 @@
+//go:build linux && verif
+
+package packets
+
+import (
+	"net/netip"
+	"sync"
+)
+
+// VerifSourceSinkFactory, when set (build tag verif only), supplies the
+// Source/Sink pair NewSourceSink returns, so the real entry points can run
+// over a simulated wire.
+type VerifSourceSinkFactory func(addr netip.Addr, useDriver bool) (SourceSinkHandle, error)
+
+var (
+	verifFactoryMu sync.Mutex
+	verifFactory   VerifSourceSinkFactory
+)
+
+// VerifSetSourceSinkFactory installs (or, with nil, removes) the factory.
+func VerifSetSourceSinkFactory(f VerifSourceSinkFactory) {
+	verifFactoryMu.Lock()
+	defer verifFactoryMu.Unlock()
+	verifFactory = f
+}
+
+func verifSourceSink(addr netip.Addr, useDriver bool) (SourceSinkHandle, bool, error) {
+	verifFactoryMu.Lock()
+	f := verifFactory
+	verifFactoryMu.Unlock()
+	if f == nil {
+		return SourceSinkHandle{}, false, nil
+	}
+	h, err := f(addr, useDriver)
+	return h, true, err
+}
